@@ -950,6 +950,16 @@ pub fn gen_c18(ctx: &Ctx, rng: &mut Rng, out: &mut Vec<String>) {
             for (li, l) in limits.into_iter().enumerate() { if t || si < 2 || li % 2 == 0 || l + 30 > total { out.push(format!("io.fsize\t{fmt}\t{p}\t{n}\t{}\t{l}", bits(&data))); } }
         }
     }
+    // a named pipe given as the input PATH carrying more than 64 KiB of plain VCF (and of BGZF VCF): everything behind the detection
+    // prefix must arrive as it does from a regular file
+    {
+        let ncols = 4; let nrec = if t { 5000 } else { 2600 };
+        let recs: Vec<String> = (0..nrec).map(|r| format!("1~{}~{}", r + 1, (0..ncols).map(|c| if r < nrec / 3 { ["0/1", "0|1", "1/0", "0/1"][c] } else { ["1/1", "1|1", "0/1", "1/1"][(c + r) % 4] }).collect::<Vec<_>>().join(","))).collect();
+        let cols = "s0,s1,s2,s3";
+        for (container, transport) in [("vcf", "fifo20"), ("vcf", "fifo70000"), ("vcfgz", "fifo1"), ("vcf", "path"), ("vcf", "stdin")] {
+            out.push(format!("c12.cli\t{container}\t{transport}\t4\t0\t0\t{cols}\tN\tN\t0\t-\t{}", recs.join(";")));
+        }
+    }
     // the same with the output going to a regular file named by `-o`: a write that fails part-way must fail the run (whatever is done
     // about the partial file afterwards)
     for (si, n) in [3usize, 200, 3001].into_iter().enumerate() {
